@@ -153,6 +153,15 @@ ListedIsReachable ==
       \A d \in DOMAIN idirs : \A e \in DOMAIN idirs[d] :
           IF e.k = "file" THEN e \in ifiles ELSE e.id \in DOMAIN idirs
 
+(* DirEntry::parent_id / id / is_file / is_dir (src/source/mod.rs:93-139): the id of a listed *)
+(* entry is its parent's id plus one name, so that parent_id() of everything read_dir(d)      *)
+(* hands out is d itself, and of the root is "none" (modelled as the record [none |-> TRUE]). *)
+ParentIdOf(e) == IF e.id = Root THEN [none |-> TRUE] ELSE ParentOf(e.id)
+ParentIdAgrees ==
+    phase = "done" =>
+      /\ \A d \in DOMAIN idirs : \A e \in DOMAIN idirs[d] : ParentIdOf(e) = d /\ e.k \in {"file", "dir"}
+      /\ ParentIdOf(DirE(Root)) = [none |-> TRUE]
+
 (* C11: Directory / RecursiveDirectory, as the code computes them from read_dir answers *)
 CodeDirIds(d, exts) == {e.id : e \in {x \in RefChildren(d) : x.k = "file" /\ x.ext \in exts}}
 RECURSIVE CodeRecIds(_, _)
